@@ -110,7 +110,8 @@ def one_run(n=10, batch_size=None, batch_seed=3, max_iter=40, patience=5, atol=1
                              else {"coef": jnp.asarray(row)})
         model = bm(n, seed)
         mval = bm(max(4, n // 2), seed + 100) if validation else None
-        stopper = Stopper(max_iter=max_iter, patience=patience, atol=atol, rtol=rtol)
+        # (the run scenarios give the four documented fields by position, the exhaustive stopper events by keyword)
+        stopper = Stopper(max_iter, patience, atol, rtol)
         if reuse_stopper == "failed":
             # ... in a call that raised (a misspelt parameter name)
             try:
